@@ -1,10 +1,8 @@
 CONSTANTS
-  Impl = "asis"
+  Impl = "early"
   Closers = {"k1", "k2", "k3"}
   Graceful = {"k2", "k3"}
-  Workers = 0
+  Workers = 1
 SPECIFICATION Spec
-INVARIANTS EmitInitInv 
-
-ACTION_CONSTRAINT EmitEdge
+INVARIANTS GracefulWaits
 CHECK_DEADLOCK FALSE
